@@ -7,6 +7,8 @@
 // spec/AsyncPipe/Trace_AsyncPipe.tla. A cleanup() that does not return within the watchdog ends the trace with a Fault.
 #include <vsched.h>
 #include <fstream>
+#include <pthread.h>
+#include <sched.h>
 #include <tbox/base/verif_hook.h>
 #include <tbox/util/async_pipe.h>
 
@@ -65,10 +67,18 @@ static void sink(const void *p, size_t n) {
     S().pass("drv.cb", "B");
 }
 
-static void producer(AsyncPipe *pipe, int p, std::vector<long long> sizes, bool lockless) {
+static std::atomic<int> g_prod_left{0};
+static void producer(AsyncPipe *pipe, int p, std::vector<long long> sizes, bool lockless, bool then_cleanup) {
     tl_prod = p; tl_role = "P";
     long long off = 0;
+    size_t idx = 0;
     for (long long len : sizes) {
+        if (then_cleanup && ++idx == sizes.size()) {
+            // The whole process is pinned to one CPU for this execution (see run_execution); from here to its cleanup() this thread runs
+            // with a real-time priority, so the back-end thread, although notified, does not get the CPU before cleanup() has raised the
+            // stop signal and blocks in join(): the back end then sees "stop" and "full buffers queued" in one and the same wake-up.
+            struct sched_param sp; sp.sched_priority = 10; pthread_setschedparam(pthread_self(), SCHED_FIFO, &sp);     // best effort
+        }
         std::unique_ptr<uint8_t[]> data(new uint8_t[len ? len : 1]);       // exact-size block: over-reads are visible to ASan
         for (long long i = 0; i < len; ++i) data[i] = (uint8_t)((p * 37 + off + i) % P);
         off += len;
@@ -85,6 +95,14 @@ static void producer(AsyncPipe *pipe, int p, std::vector<long long> sizes, bool 
         }
         emit(J("uret") + kv("p", p) + "}");
     }
+    int left = g_prod_left.fetch_sub(1) - 1;
+    if (then_cleanup) {     // cleanup() right behind the last append, from the same thread: the back end has not even woken up yet
+        while (left > 0) { std::this_thread::yield(); left = g_prod_left.load(); }
+        S().pass("drv.cleanup_call", "C");
+        pipe->cleanup();
+        emit(J("cleanup_ret") + "}");
+        struct sched_param sp0; sp0.sched_priority = 0; pthread_setschedparam(pthread_self(), SCHED_OTHER, &sp0);
+    }
 }
 
 static void run_execution(const json &x) {
@@ -97,20 +115,30 @@ static void run_execution(const json &x) {
     cfg.buff_size = x["cfg"]["size"]; cfg.buff_min_num = x["cfg"]["min"]; cfg.buff_max_num = x["cfg"]["max"]; cfg.interval = x["cfg"].value("interval", 1);
     int rounds = x.value("rounds", 1);
     AsyncPipe *pipe = new AsyncPipe;
+    cpu_set_t all_cpus; CPU_ZERO(&all_cpus); sched_getaffinity(0, sizeof all_cpus, &all_cpus);
+    if (x.value("cleanup_by_producer", false)) {        // threads created from here on (back end, producers) inherit the single CPU
+        cpu_set_t one; CPU_ZERO(&one); int c = sched_getcpu(); CPU_SET(c >= 0 ? c : 0, &one); sched_setaffinity(0, sizeof one, &one);
+    }
     for (int r = 0; r < rounds; ++r) {
         if (!pipe->initialize(cfg)) { fprintf(stderr, "initialize failed\n"); _exit(3); }
         pipe->setCallback(sink);
         emit(J("begin") + kv("size", (long long)cfg.buff_size) + kv("min", (long long)cfg.buff_min_num) + kv("max", (long long)cfg.buff_max_num) + "}");
         std::vector<std::thread> th;
         int p = 0;
-        for (auto &sz : x["producers"]) { ++p; th.emplace_back(producer, pipe, p, sz.get<std::vector<long long>>(), x.value("lockless", false) && (p % 2 == 0)); }
-        {   CallGuard cg; for (auto &t : th) t.join(); }        // an append() that never returns is a hang, too
-        if (x.contains("sleep_before_cleanup_us")) std::this_thread::sleep_for(std::chrono::microseconds(x["sleep_before_cleanup_us"].get<int>()));
-        S().pass("drv.cleanup_call", "C");
-        {   CallGuard cg; pipe->cleanup(); }
-        emit(J("cleanup_ret") + "}");
+        const bool by_producer = x.value("cleanup_by_producer", false) && !x["producers"].empty();
+        g_prod_left = (int)x["producers"].size();
+        for (auto &sz : x["producers"]) { ++p; th.emplace_back(producer, pipe, p, sz.get<std::vector<long long>>(), x.value("lockless", false) && (p % 2 == 0),
+                                                               by_producer && p == (int)x["producers"].size()); }
+        {   CallGuard cg; for (auto &t : th) t.join(); }        // an append() (or the producer's cleanup()) that never returns is a hang
+        if (!by_producer) {
+            if (x.contains("sleep_before_cleanup_us")) std::this_thread::sleep_for(std::chrono::microseconds(x["sleep_before_cleanup_us"].get<int>()));
+            S().pass("drv.cleanup_call", "C");
+            {   CallGuard cg; pipe->cleanup(); }
+            emit(J("cleanup_ret") + "}");
+        }
     }
     delete pipe;
+    sched_setaffinity(0, sizeof all_cpus, &all_cpus);
     emit(J("end") + kv("gate_timeouts", S().gate_timeouts.load()) + "}");
     flush_events(true);
 }
@@ -141,6 +169,11 @@ static json random_execution(vh::Rng &rng, uint64_t seed, long long size, long l
             s.push_back(len);
         }
         prods.push_back(s);
+    }
+    if (rng.chance(30)) {       // the last producer calls cleanup() itself, right behind an append that fills a buffer and leaves a remainder
+        x["cleanup_by_producer"] = true;
+        if (prods.empty()) prods.push_back(json::array());
+        prods.back().push_back(std::min(20000LL, size * rng.range(1, 3) + rng.range(1, size > 1 ? size - 1 : 1)));
     }
     x["producers"] = prods;
     return x;
